@@ -32,13 +32,37 @@ Proof.
   unfold closed. rewrite forallb_forall. intros H Hin Hs. specialize (H _ Hin). simpl in H. rewrite Hs in H. exact H.
 Qed.
 
-Lemma closed_call sums body Vs f args d sm j a : closed sums body Vs = true -> In (SCall f args d) body ->
+Lemma reaches_intro args Vs idxs j a : In j idxs -> nth_error args j = Some a -> mem a Vs = true -> reaches args Vs idxs = true.
+Proof. intros Hj Ha Hm. unfold reaches. apply existsb_exists. exists j. split; [exact Hj|]. cbv beta. unfold var in *. rewrite Ha. exact Hm. Qed.
+
+Lemma closed_call sums body Vs f args d outs sm j a : closed sums body Vs = true -> In (SCall f args d outs) body ->
   nth_error sums f = Some sm -> In j (s_rets sm) -> nth_error args j = Some a -> mem a Vs = true -> mem d Vs = true.
 Proof.
   unfold closed. rewrite forallb_forall. intros H Hin Hs Hj Ha Hm. specialize (H _ Hin). simpl in H. rewrite Hs in H.
-  assert (E : existsb (fun i => match nth_error args i with Some a0 => mem a0 Vs | None => false end) (s_rets sm) = true).
-  { apply existsb_exists. exists j. split; auto. now rewrite Ha. }
-  rewrite E in H. exact H.
+  apply andb_true_iff in H. destruct H as [H _]. rewrite (reaches_intro _ _ _ _ _ Hj Ha Hm) in H. exact H.
+Qed.
+
+Lemma closed_call_out sums body Vs f args d outs sm n o so j a : closed sums body Vs = true -> In (SCall f args d outs) body ->
+  nth_error sums f = Some sm -> nth_error outs n = Some o -> nth_error (s_outs sm) n = Some so ->
+  In j so -> nth_error args j = Some a -> mem a Vs = true -> mem o Vs = true.
+Proof.
+  unfold closed. rewrite forallb_forall. intros H Hin Hs Ho Hso Hj Ha Hm. specialize (H _ Hin). simpl in H. rewrite Hs in H.
+  apply andb_true_iff in H. destruct H as [_ H]. rewrite forallb_forall in H.
+  assert (Hc : In (o, so) (combine outs (s_outs sm))).
+  { clear - Ho Hso. revert outs Ho Hso. generalize (s_outs sm). induction n as [|n IH]; intros l outs Ho Hso.
+    - destruct outs; [discriminate|]. destruct l; [discriminate|]. simpl in *. injection Ho as ->. injection Hso as ->. now left.
+    - destruct outs; [discriminate|]. destruct l; [discriminate|]. simpl in *. right. eauto. }
+  specialize (H _ Hc). simpl in H. rewrite (reaches_intro _ _ _ _ _ Hj Ha Hm) in H. exact H.
+Qed.
+
+(* what a variable holds after the out-variables of a call were copied back *)
+Lemma upd_outs_spec s vs ls x : 
+  upd_outs s vs ls x = s x \/ exists n, nth_error vs n = Some x /\ nth_error ls n = Some (upd_outs s vs ls x).
+Proof.
+  unfold upd_outs. revert ls. induction vs as [|v vs IH]; intro ls; [now left|].
+  destruct ls as [|l ls]; [now left|]. simpl. unfold upd at 1 3. destruct (Nat.eqb_spec x v) as [->|Hne].
+  - right. exists 0. auto.
+  - destruct (IH ls) as [E|[n [A B]]]; [left; exact E|right; exists (S n); auto].
 Qed.
 
 Section Program.
@@ -88,7 +112,7 @@ Proof.
               old_ok fn ss init n0 c' /\ writes_ok fn ss init n0 w0 c').
   { clear Hsteps. intros kk body c Hs.
     induction Hs as [kk body c|kk body c c' d s Hin Hs IH|kk body c c' d Hin Hs IH|kk body c c' v l Hin Hv Hs IH
-                    |kk body c c' f args d fnc cc res Hin Hfk Hfc Hcallee _ Hres Hs IH]; intros Ek Eb HO HW; subst kk body.
+                    |kk body c c' f args d outs fnc cc res Hin Hfk Hfc Hcallee _ Hres Hs IH]; intros Ek Eb HO HW; subst kk body.
     - auto.
     - (* alias *) apply IH; [reflexivity|reflexivity| |exact HW].
       destruct HO as (Hn & Hb & Ho). split; [exact Hn|]. split.
@@ -116,22 +140,57 @@ Proof.
       { unfold ss. rewrite firstn_nth_error by auto. now apply sums_ok. }
       apply IH; [reflexivity|reflexivity| | ].
       + (* the invariant after the call *)
-        split; [simpl; lia|]. split.
-        * intros v l Hv. simpl in *. unfold upd in Hv. destruct (Nat.eqb_spec v d) as [->|Hne].
-          -- destruct Hres as [->|[r [Hr ->]]]; [injection Hv as <-; lia|]. specialize (Cb r l Hv). lia.
-          -- specialize (Hb v l Hv). lia.
-        * intros v l Hv Hl. simpl in *. unfold upd in Hv. destruct (Nat.eqb_spec v d) as [->|Hne]; [|apply Ho; auto].
-          destruct Hres as [->|[r [Hr ->]]]; [injection Hv as <-; lia|].
-          (* the callee returned one of its old locations: the location of one of its parameters it may return *)
-          destruct (Co r l Hv ltac:(lia)) as (q & Hq & Hiq & Hhq).
+        (* facts about the store [upd (st c) d res] before the out-variables are copied back *)
+        assert (B1 : forall v l, upd (st c) d res v = Some l -> l < S (next cc)).
+        { intros v l Hv. unfold upd in Hv. destruct (Nat.eqb_spec v d) as [->|Hne].
+          - destruct Hres as [->|[r [Hr ->]]]; [injection Hv as <-; lia|]. specialize (Cb r l Hv). lia.
+          - specialize (Hb v l Hv). lia. }
+        (* a callee variable that holds an old location at the end holds the location of a callee parameter, whose
+           position is found in the summary *)
+        assert (K : forall o l, st cc o = Some l -> l < n0 ->
+                  exists j a, nth_error (f_params fnc) j <> None /\ nth_error args j = Some a /\ st c a = Some l /\
+                    (forall q, nth_error (f_params fnc) j = Some q ->
+                       holds (firstn f sums) fnc q = None \/ exists Vs, holds (firstn f sums) fnc q = Some Vs /\ mem o Vs = true)).
+        { intros o l Hv Hl. destruct (Co o l Hv ltac:(lia)) as (q & Hq & Hiq & Hhq).
           destruct (bind_params_spec _ _ _ _ Hiq) as (j & Hj & Hlj).
+          rewrite nth_error_map in Hlj. destruct (nth_error args j) as [a|] eqn:Ea; [|discriminate]. simpl in Hlj. injection Hlj as Hla.
+          exists j, a. split; [congruence|]. split; [exact Ea|]. split; [exact Hla|]. intros q' Hq'. rewrite Hj in Hq'. injection Hq' as <-. exact Hhq. }
+        assert (O1 : forall v l, upd (st c) d res v = Some l -> l < n0 ->
+                  exists p, In p (f_params fn) /\ init p = Some l /\
+                    (holds ss fn p = None \/ exists Vs, holds ss fn p = Some Vs /\ mem v Vs = true)).
+        { intros v l Hv Hl. unfold upd in Hv. destruct (Nat.eqb_spec v d) as [->|Hne]; [|apply Ho; auto].
+          destruct Hres as [->|[r [Hr ->]]]; [injection Hv as <-; lia|].
+          destruct (K r l Hv Hl) as (j & a & Hjn & Ea & Hla & Hh).
+          destruct (nth_error (f_params fnc) j) as [q|] eqn:Hj; [|congruence]. specialize (Hh q eq_refl).
           assert (Hret : In j (s_rets (summarise (firstn f sums) fnc))).
           { unfold summarise. simpl. apply filter_In. split; [apply in_seq; split; [lia|]; simpl; apply nth_error_Some; congruence|].
-            rewrite Hj. unfold may_return. destruct Hhq as [->|[Vs [-> Hm]]]; auto.
+            rewrite Hj. unfold may_return. destruct Hh as [->|[Vs [-> Hm]]]; auto.
             apply existsb_exists. exists r. auto. }
-          rewrite nth_error_map in Hlj. destruct (nth_error args j) as [a|] eqn:Ea; [|discriminate]. simpl in Hlj. injection Hlj as Hla.
           destruct (Ho a l Hla Hl) as (p & Hp & Hi & [Hn'|[Vs [HS Hm]]]); exists p; repeat split; auto.
-          right. exists Vs. split; auto. destruct (holds_contains _ _ _ _ HS) as [Hc _]. eapply closed_call; eauto.
+          right. exists Vs. split; auto. destruct (holds_contains _ _ _ _ HS) as [Hc _]. eapply closed_call; eauto. }
+        split; [simpl; lia|]. split.
+        * intros v l Hv. simpl in *.
+          destruct (upd_outs_spec (upd (st c) d res) outs (map (st cc) (f_outs fnc)) v) as [E|[n [A B]]].
+          -- rewrite E in Hv. eapply B1; eauto.
+          -- rewrite Hv in B. rewrite nth_error_map in B. destruct (nth_error (f_outs fnc) n) as [o|]; [|discriminate].
+             simpl in B. injection B as B. specialize (Cb o l B). lia.
+        * intros v l Hv Hl. simpl in *.
+          destruct (upd_outs_spec (upd (st c) d res) outs (map (st cc) (f_outs fnc)) v) as [E|[n [A B]]].
+          -- rewrite E in Hv. apply O1; auto.
+          -- rewrite Hv in B. rewrite nth_error_map in B. destruct (nth_error (f_outs fnc) n) as [o|] eqn:Eo; [|discriminate].
+             simpl in B. injection B as B.
+             destruct (K o l B Hl) as (j & a & Hjn & Ea & Hla & Hh).
+             destruct (nth_error (f_params fnc) j) as [q|] eqn:Hj; [|congruence]. specialize (Hh q eq_refl).
+             set (so := filter (fun i => match nth_error (f_params fnc) i with Some p => may_reach (firstn f sums) fnc p o | None => true end)
+                               (seq 0 (length (f_params fnc)))).
+             assert (Hso : nth_error (s_outs (summarise (firstn f sums) fnc)) n = Some so).
+             { unfold summarise. simpl. rewrite nth_error_map, Eo. reflexivity. }
+             assert (Hjs : In j so).
+             { unfold so. apply filter_In. split; [apply in_seq; split; [lia|]; simpl; apply nth_error_Some; congruence|].
+               rewrite Hj. unfold may_reach. destruct Hh as [->|[Vs [-> Hm]]]; auto. }
+             destruct (Ho a l Hla Hl) as (p & Hp & Hi & [Hn'|[Vs [HS Hm]]]); exists p; repeat split; auto.
+             right. exists Vs. split; auto. destruct (holds_contains _ _ _ _ HS) as [Hc _].
+             eapply (closed_call_out ss (f_body fn) Vs f args d outs _ n v so j a); eauto.
       + (* writes performed by the callee *)
         intros l Hl. simpl in Hl. destruct (CW l Hl) as [Hw|[Hnew|(q & Hq & Hiq & Hmw)]]; [apply HW; auto|right; left; lia|].
         destruct (Nat.lt_ge_cases l n0) as [Hold|Hnew]; [|right; left; lia].
@@ -142,8 +201,8 @@ Proof.
         rewrite nth_error_map in Hlj. destruct (nth_error args j) as [a|] eqn:Ea; [|discriminate]. simpl in Hlj. injection Hlj as Hla.
         right. right. destruct (Ho a l Hla Hold) as (p & Hp & Hi & [Hn'|[Vs [HS Hm]]]); exists p; repeat split; auto.
         * unfold may_write. now rewrite Hn'.
-        * unfold may_write. rewrite HS. unfold writes_into. apply existsb_exists. exists (SCall f args d). split; auto.
-          rewrite Hsf. apply existsb_exists. exists j. split; auto. now rewrite Ea. }
+        * unfold may_write. rewrite HS. unfold writes_into. apply existsb_exists. exists (SCall f args d outs). split; auto.
+          rewrite Hsf. eapply reaches_intro; eauto. }
   apply (G k (f_body fn) _ Hsteps eq_refl eq_refl).
   - (* the initial configuration *)
     split; [simpl; lia|]. split.
@@ -165,6 +224,19 @@ Theorem never_written_sound k fn ls n0 c' l :
 Proof.
   intros Hfn Hls Hs Hl Hold. destruct (sound_all k fn Hfn ls n0 [] c' Hls Hs) as [_ HW].
   destruct (HW l Hl) as [[]|[Hn|H]]; [lia|exact H].
+Qed.
+
+(* the same for aliasing: a variable that holds a pre-existing location at the end of an execution holds the object of
+   a parameter the analysis says may reach it *)
+Theorem reached_sound k fn ls n0 c' o l :
+  nth_error P k = Some fn -> (forall l', In (Some l') ls -> l' < n0) ->
+  steps P k (f_body fn) {| st := bind_params (f_params fn) ls; next := n0; written := [] |} c' ->
+  st c' o = Some l -> l < n0 ->
+  exists p, In p (f_params fn) /\ bind_params (f_params fn) ls p = Some l /\ may_reach (firstn k sums) fn p o = true.
+Proof.
+  intros Hfn Hls Hs Ho Hold. destruct (sound_all k fn Hfn ls n0 [] c' Hls Hs) as [(_ & _ & HO) _].
+  destruct (HO o l Ho Hold) as (p & Hp & Hi & Hh). exists p. repeat split; auto.
+  unfold may_reach. destruct Hh as [->|[Vs [-> Hm]]]; auto.
 Qed.
 End Program.
 
@@ -216,4 +288,56 @@ Proof.
     - apply in_seq. split; [lia|]. simpl. apply nth_error_Some. congruence.
     - now rewrite Hp. }
   congruence.
+Qed.
+
+Theorem reach_obligation_sound P k i j fn p o ls n0 c' l :
+  nth_error P k = Some fn -> NoDup (f_params fn) -> nth_error (f_params fn) i = Some p -> nth_error (f_outs fn) j = Some o ->
+  never_reaches P k i j = true ->
+  (forall l', In (Some l') ls -> l' < n0) ->
+  steps P k (f_body fn) {| st := bind_params (f_params fn) ls; next := n0; written := [] |} c' ->
+  st c' o = Some l -> bind_params (f_params fn) ls p = Some l ->
+  exists q, q <> p /\ In q (f_params fn) /\ bind_params (f_params fn) ls q = Some l /\ may_reach (firstn k (summaries P)) fn q o = true.
+Proof.
+  intros Hfn ND Hp Ho Hnr Hls Hs Hl Hb.
+  assert (Hold : l < n0).
+  { destruct (bind_params_spec _ _ _ _ Hb) as (n & _ & Hn). apply Hls. eapply nth_error_In; eauto. }
+  destruct (reached_sound P (summaries P) (summaries_ok P) k fn ls n0 c' o l Hfn Hls Hs Hl Hold) as (q & Hq & Hbq & Hmr).
+  exists q. repeat split; auto. intro E. subst q.
+  unfold never_reaches in Hnr. rewrite (summaries_ok P k fn Hfn) in Hnr. unfold summarise in Hnr. simpl in Hnr.
+  rewrite nth_error_map, Ho in Hnr. simpl in Hnr. apply negb_true_iff in Hnr.
+  assert (X : mem i (filter (fun i0 => match nth_error (f_params fn) i0 with Some p0 => may_reach (firstn k (summaries P)) fn p0 o | None => true end)
+                            (seq 0 (length (f_params fn)))) = true).
+  { apply mem_In. apply filter_In. split.
+    - apply in_seq. split; [lia|]. simpl. apply nth_error_Some. congruence.
+    - now rewrite Hp. }
+  congruence.
+Qed.
+
+(* ------------------------------------------------------------------ the fast summaries are the summaries *)
+Lemma idx_filter_spec {A B} (g : A -> bool) (h : B -> A) (ps : list B) :
+  idx_filter g (map h ps) = filter (fun i => match nth_error ps i with Some p => g (h p) | None => true end) (seq 0 (length ps)).
+Proof.
+  unfold idx_filter. rewrite map_length.
+  assert (G : forall s, map fst (filter (fun ih : nat * A => g (snd ih)) (combine (seq s (length ps)) (map h ps))) =
+                        filter (fun i => match nth_error ps (i - s) with Some p => g (h p) | None => true end) (seq s (length ps))).
+  { induction ps as [|p ps IH]; intro s; [reflexivity|]. simpl. rewrite Nat.sub_diag. simpl.
+    assert (E : filter (fun i => match nth_error (p :: ps) (i - s) with Some p0 => g (h p0) | None => true end) (seq (S s) (length ps)) =
+                filter (fun i => match nth_error ps (i - S s) with Some p0 => g (h p0) | None => true end) (seq (S s) (length ps))).
+    { apply filter_ext_in. intros i Hi. apply in_seq in Hi. replace (i - s) with (S (i - S s)) by lia. reflexivity. }
+    destruct (g (h p)); simpl; rewrite IH, E; reflexivity. }
+  rewrite (G 0). apply filter_ext. intro i. now rewrite Nat.sub_0_r.
+Qed.
+
+Lemma summarise_fast_eq sums fn : summarise_fast sums fn = summarise sums fn.
+Proof.
+  unfold summarise_fast, summarise. cbv zeta. f_equal.
+  - rewrite idx_filter_spec. reflexivity.
+  - rewrite idx_filter_spec. reflexivity.
+  - apply map_ext. intro o. rewrite idx_filter_spec. reflexivity.
+Qed.
+
+Theorem summaries_fast_eq P : summaries_fast P = summaries P.
+Proof.
+  unfold summaries_fast, summaries. generalize (@nil summary). induction P as [|fn P IH]; intro acc; simpl; [reflexivity|].
+  rewrite summarise_fast_eq. apply IH.
 Qed.
